@@ -4,6 +4,8 @@
 
 pub mod cjoin;
 pub mod cshim;
+#[cfg(feature = "full")]
+pub mod fixbin;
 pub mod fuzz;
 pub mod gen;
 pub mod guard;
